@@ -76,6 +76,15 @@ inductive Use
   | unknown (src : String)
 deriving DecidableEq, Repr
 
+/-- `Node.format()` of a kind -/
+inductive FormatKind
+  | name        -- f"{module_name}.{class_name}"
+  | json        -- f"json-type({content})"
+  | bytes       -- repr of the payload
+  | bytearray   -- "bytearray(" repr ")"
+  | unknown
+deriving DecidableEq, Repr
+
 structure KindSpec where
   loader : String
   protocol : Nat
@@ -94,6 +103,13 @@ structure KindSpec where
   initEffects : List String := []         -- anything `__init__` does that is not inert
   reads : List (List String) := []        -- `state[...]` paths subscripted by `__init__` (KeyError when absent)
   uses : List Use := []
+  -- what `visualize` consults
+  fmt : FormatKind := .name
+  selfSafeAlways : Bool := false          -- `is_self_safe` returns True unconditionally (JsonNode)
+  isSafeAlways : Bool := false            -- `is_safe` returns True unconditionally (JsonNode)
+  viewKnown : Bool := true
+  skipped : Bool := false                 -- member of `SKIPPED_TYPES`: children are not shown
+  isListNode : Bool := false
 
 structure Table where
   protocol : Nat
